@@ -1412,7 +1412,8 @@ func (_mul) exec(vm *vm) {
 	case valueInt:
 		switch right := right.(type) {
 		case valueInt:
-			if left == 0 && right == -1 || left == -1 && right == 0 {
+			if left == 0 && right < 0 || left < 0 && right == 0 {
+				// 0 * -n is -0, which an integer cannot represent
 				result = _negativeZero
 				goto end
 			}
